@@ -9,12 +9,12 @@ def census_note(mod):
 	names = {'p': 'same-name field transfers', 'q': 'swapped arguments', 'w': 'narrow arithmetic widened afterwards', 'v': 'field-versus-field comparisons', 'x': 'fixed-array range indexing', 'z': 'named constants',
 		'o': 'hand-written eq/ord/hash impls', 'u': 'obligation-carrying values never dropped unexamined', 't': 'identity comparisons', 'y': 'dropped Results', 's': 'short-circuiting iterator adaptors',
 		'R': 'state resets', 'P': 'panic sites', 'M': 'stored-collection mutations', 'E': 'event replay', 'A': 'enum accessor sibling agreement', 'G': 'guard census (no act gained a controlling condition)',
-		'I': 'parse-position independence', 'W': 'field assignments', 'X': 'error propagation after a failed step'}
+		'I': 'parse-position independence', 'W': 'field assignments', 'X': 'error propagation after a failed step', 'N': 'arithmetic kinds', 'K': 'constants and coefficients of linear forms (comparisons and arithmetic expressions)'}
 	ids = []
 	for rid, desc, fn in mod.RULES:
 		if rid[-2] == '.' and rid[-1] in names and rid[-1] not in ids:
 			ids.append(rid[-1])
-	return (' Also evaluated on the files / types of this property: the crate-wide censuses and generic rules of rules/provenance.py, mutations.py, guards.py, writes.py, accessors.py, parsepos.py, errprop.py, eventloops.py (%s).' % ', '.join(names[i] for i in ids)) if ids else ''
+	return (' Also evaluated on the files / types of this property: the crate-wide censuses and generic rules of rules/provenance.py, mutations.py, guards.py, writes.py, accessors.py, parsepos.py, errprop.py, eventloops.py, arith.py, linforms.py (%s).' % ', '.join(names[i] for i in ids)) if ids else ''
 props = [json.loads(l)['id'] for l in open('/verif/properties.jsonl')]
 checks = []
 na = []
